@@ -329,7 +329,7 @@ func drawGgsvd3(t *rapid.T) kase {
 }
 
 func TestGgsvd3(t *testing.T) {
-	vk.Run(t, "ggsvd3", vk.Opts{Quick: 400, Thorough: 12000}, drawGgsvd3, checkGgsvd3)
+	vk.Run(t, "ggsvd3", vk.Opts{Quick: 1200, Thorough: 12000}, drawGgsvd3, checkGgsvd3)
 }
 
 // ---- Dggsvp3 ---------------------------------------------------------------------
@@ -494,7 +494,7 @@ func drawGgsvp3(t *rapid.T) kase {
 }
 
 func TestGgsvp3(t *testing.T) {
-	vk.Run(t, "ggsvp3", vk.Opts{Quick: 300, Thorough: 9000}, drawGgsvp3, checkGgsvp3)
+	vk.Run(t, "ggsvp3", vk.Opts{Quick: 900, Thorough: 9000}, drawGgsvp3, checkGgsvp3)
 }
 
 // ---- Dtgsja ----------------------------------------------------------------------
@@ -640,7 +640,7 @@ func drawTgsja(t *rapid.T) kase {
 }
 
 func TestTgsja(t *testing.T) {
-	vk.Run(t, "tgsja", vk.Opts{Quick: 300, Thorough: 9000}, drawTgsja, checkTgsja)
+	vk.Run(t, "tgsja", vk.Opts{Quick: 900, Thorough: 9000}, drawTgsja, checkTgsja)
 }
 
 // ---- Dgghrd ----------------------------------------------------------------------
@@ -780,5 +780,5 @@ func drawGghrd(t *rapid.T) kase {
 }
 
 func TestGghrd(t *testing.T) {
-	vk.Run(t, "gghrd", vk.Opts{Quick: 250, Thorough: 8000}, drawGghrd, checkGghrd)
+	vk.Run(t, "gghrd", vk.Opts{Quick: 700, Thorough: 8000}, drawGghrd, checkGghrd)
 }
